@@ -2,7 +2,6 @@ package formatter
 
 import (
 	"bytes"
-	"fmt"
 	"io"
 	"strings"
 	"sync"
@@ -85,18 +84,9 @@ func (f *Formatter) Format(vcl *ast.VCL) io.Reader {
 			return nil
 		}
 
-		var lf string
-		if stmt.GetMeta().PreviousEmptyLines > 0 {
-			lf = "\n"
-		}
-
-		decl.Buffer = fmt.Sprintf(
-			"%s%s%s%s",
-			f.formatComment(stmt.GetMeta().Leading, "\n", 0),
-			lf,
-			decl.Buffer,
-			f.trailing(trailingNode.GetMeta().Trailing),
-		)
+		decl.Leading = f.formatComment(stmt.GetMeta().Leading, "\n", 0)
+		decl.EmptyLine = stmt.GetMeta().PreviousEmptyLines > 0
+		decl.Buffer += f.trailing(trailingNode.GetMeta().Trailing)
 		decls = append(decls, decl)
 	}
 
@@ -111,6 +101,12 @@ func (f *Formatter) Format(vcl *ast.VCL) io.Reader {
 	buf.Reset()
 	for i, decl := range decls {
 		if i > 0 {
+			buf.WriteString("\n")
+		}
+		buf.WriteString(decl.Leading)
+		// The file never starts with an empty line: a single leading line feed
+		// would not be an empty line for the parser on the next formatting
+		if decl.EmptyLine && (i > 0 || decl.Leading != "") {
 			buf.WriteString("\n")
 		}
 		buf.WriteString(decl.Buffer)
